@@ -185,6 +185,11 @@ def systematic():
         qs.append(grp(a, {"t": "graph", "name": V("g"), "g": grp(bgp((V("x"), V("r2"), V("o2"))))}))
         qs.append(grp({"t": "graph", "name": I("g3"), "g": grp(a)}))
         qs.append(grp({"t": "graph", "name": I("nosuch"), "g": grp(a)}))
+    # both ends of a pattern bound by an earlier one, predicate free: the (s, ?p, o) lookup
+    for p1 in (I("p"), I("q"), V("r")):
+        qs.append(grp(bgp((V("x"), p1, V("y")), (V("y"), V("r2"), V("x")))))
+        qs.append(grp(bgp((V("x"), p1, V("y"))), {"t": "optional", "g": grp(bgp((V("x"), V("r2"), V("y"))))}))
+        qs.append(grp(bgp((V("x"), p1, V("y"))), {"t": "filter", "e": {"e": "notexists", "g": grp(bgp((V("y"), V("r2"), V("x"))))}}))
     # IF evaluates only the branch it selects: the other one may be an unbound variable (the idiom IF(BOUND(?z), ?z, "none") after OPTIONAL)
     for a in A_POOL[:3]:
         for b in B_POOL[:3]:
